@@ -58,6 +58,24 @@ def prerequisite_collection(ctx, o, ps: PassShape):
     pt['sources'] = srcs
     pt['iter'] = it
     pt['has_bound'] = any(isinstance(a, ast.Name) and a.id == ps.bound for a in pt['args'])
+    for u in srcs['unknown']:
+        # the collection passed through a dictionary keyed by task id: `found[pred.id] = pred ... list(found.values())`
+        m = match("list($d.values())", u) or match("$d.values()", u) or match("[$v for $v in $d.values()]", u)
+        if m and isinstance(m['d'], ast.Name):
+            dn = m['d'].id
+            for n in walk_no_nested(ps.f.node):
+                key = val = None
+                if isinstance(n, ast.Assign) and len(n.targets) == 1 and isinstance(n.targets[0], ast.Subscript) and \
+                        isinstance(n.targets[0].value, ast.Name) and n.targets[0].value.id == dn:
+                    key, val = n.targets[0].slice, n.value
+                elif isinstance(n, ast.Call) and isinstance(n.func, ast.Attribute) and n.func.attr == 'setdefault' and len(n.args) == 2 and \
+                        isinstance(n.func.value, ast.Name) and n.func.value.id == dn:
+                    key, val = n.args
+                if key is not None and isinstance(val, ast.Name) and match(f"{val.id}.id", key):
+                    o.refute(ps.f, n, n, f"the {ps.rel} that bound the task are de-duplicated by task id (`{src(n)[:60]}`): ids are unique only "
+                                         f"inside one WBS, so of two different {ps.rel} with the same id (one of them outside the WBS) only one "
+                                         f"bounds the task")
+                    return pt
     if srcs['unknown'] and srcs['filtered']:
         # a filter was positively identified: that is a finding whatever else in the collection stays unread
         for x in srcs['filtered']:
@@ -192,10 +210,39 @@ def recursion_order(ctx, o, ps: PassShape, pt):
         conds_call = [(t, p) for t, p in conds_call if not (facts.cond_is(t, p, f"{lv}.id in {memo_arg.id}", want=False))]
     # ... and a guard that keeps the recursion inside the WBS being scheduled (`if dep.wbs is task.wbs`) skips only tasks whose
     # dates are input (outside tasks are never scheduled by this calc: C14.recursion_stays_in_wbs demands exactly this guard)
+    def _wbs_guard(t, p):
+        if sched._same_wbs_guard(t, p, lv, ps.task):
+            return True
+        core, q = t, p
+        while isinstance(core, ast.UnaryOp) and isinstance(core.op, ast.Not):
+            core, q = core.operand, not q
+        if isinstance(core, ast.BoolOp) and isinstance(core.op, ast.Or) and q and \
+                any(sched._same_wbs_guard(v, True, lv, ps.task) for v in core.values):
+            return True        # lets through at least every dependency inside the WBS (what else it lets through is C14's / C06's matter)
+        at = ps.cfg.node_containing(t)
+        return bool(at is not None and sched._same_wbs_guard(ps.ex.expand(t, at), p, lv, ps.task))     # `own = task.wbs` hoisted
     if lv:
-        conds_call = [(t, p) for t, p in conds_call if not sched._same_wbs_guard(t, p, lv, ps.task)]
+        conds_call = [(t, p) for t, p in conds_call if not _wbs_guard(t, p)]
     if len(conds_call) > len(conds_loop):
-        o.refute(ps.f, c, c, "the recursive call on a dependency is conditional inside the loop")
+        extra = [(t, p) for t, p in conds_call if not any(t is lt for lt, _ in conds_loop)]
+        def _maybe_membership(t):
+            """a test that could say `the dependency belongs to the WBS being scheduled` in a spelling that is not read"""
+            for x in ast.walk(t):
+                if isinstance(x, ast.Attribute) and x.attr == 'wbs' and isinstance(x.value, ast.Name) and x.value.id == lv:
+                    return True
+                if isinstance(x, ast.Compare) and any(isinstance(op_, (ast.In, ast.NotIn)) for op_ in x.ops) and \
+                        any(isinstance(y, ast.Name) and y.id == lv for y in ast.walk(x.left)):
+                    return True
+                if isinstance(x, ast.Call) and any(isinstance(a_, ast.Name) and a_.id == lv for a_ in x.args):
+                    return True
+            return False
+        if lv and extra and all(_maybe_membership(t) for t, p in extra):
+            # a test on the dependency itself in a form that is not read (membership in the WBS spelled differently?): C14's
+            # recursion_stays_in_wbs judges it; here it is not known which dependencies it skips
+            o.undecided(ps.f, c, c, f"the recursive call on a dependency runs under `{src(extra[0][0])[:60]}`, a test on the dependency the "
+                                    f"rule does not interpret")
+        else:
+            o.refute(ps.f, c, c, "the recursive call on a dependency is conditional inside the loop")
         ok = False
     var = pt['sources'].get('var')
     if var:
@@ -221,7 +268,8 @@ def leaf_bound(ctx, o, ps: PassShape, pt):
     attr = 'start' if fwd else 'end'
     stores = [x for x in ps.stores(attr) if x[3]['milestone'] is False and x[3]['leaf'] is True and x[3]['is_none'].get(attr) is True]
     if not stores:
-        vague = [x for x in ps.stores(attr) if x[3]['leaf'] is None and x[3]['milestone'] is not True]
+        vague = [x for x in ps.stores(attr) if x[3]['milestone'] is not True and x[3]['leaf'] is not False and
+                 (x[3]['leaf'] is None or x[3]['milestone'] is None)]
         if vague:
             o.undecided(ps.f, vague[0][0], vague[0][0], f"task.{attr} is stored under conditions the rule cannot classify as leaf / summary")
             return
@@ -595,13 +643,45 @@ def search_monotone(ctx, o, S):
     start_p = f.params[3]
     res_p = f.params[1]
     d = S['dir']
-    rets = [n for n in walk_no_nested(f.node) if isinstance(n, ast.Return)]
+    def _const_truth(e):
+        """truth value of a test made of constants only (`1 > 0`, left behind when a direction parameter was bound), else None"""
+        if isinstance(e, ast.Constant):
+            return bool(e.value)
+        if isinstance(e, ast.UnaryOp) and isinstance(e.op, ast.Not):
+            v = _const_truth(e.operand)
+            return None if v is None else not v
+        if isinstance(e, ast.Compare) and len(e.ops) == 1:
+            a, b = facts.const_num(e.left), facts.const_num(e.comparators[0])
+            if a is not None and b is not None:
+                op = e.ops[0]
+                return {ast.Gt: a > b, ast.GtE: a >= b, ast.Lt: a < b, ast.LtE: a <= b, ast.Eq: a == b, ast.NotEq: a != b}.get(type(op))
+        return None
+
+    def _dead(stmt):
+        """the statement sits on a path whose condition is false whatever the input (dead code of a merged two-direction body)"""
+        for t, p in facts.node_conditions(prog, f, stmt, ctx.typer, expand=True):
+            v = _const_truth(t)
+            if v is not None and v != p:
+                return True
+        return False
+
+    rets = [n for n in walk_no_nested(f.node) if isinstance(n, ast.Return) and not _dead(n)]
     if not rets:
         o.refute(f, f.node, 'return', "search never returns")
         return
     dvar = None
+    def _fold_sign(v):
+        """mid + (-1) * X  ->  mid - X ;  mid + 1 * X -> mid + X   (a direction parameter bound to a constant)"""
+        if isinstance(v, ast.BinOp) and isinstance(v.op, (ast.Add, ast.Sub)) and isinstance(v.right, ast.BinOp) and isinstance(v.right.op, ast.Mult):
+            a, b = v.right.left, v.right.right
+            c, x = (facts.const_num(a), b) if facts.const_num(a) is not None else (facts.const_num(b), a)
+            if c in (1, -1):
+                neg = (c == -1) != isinstance(v.op, ast.Sub)
+                return ast.copy_location(ast.BinOp(left=v.left, op=ast.Sub() if neg else ast.Add(), right=x), v)
+        return v
+
     for r in rets:
-        v = ex.expand(r.value)
+        v = _fold_sign(ex.expand(r.value))
         m = None
         if isinstance(v, ast.BinOp) and isinstance(v.op, (ast.Add, ast.Sub)):
             mid = facts.is_midnight_of(v.left)
@@ -663,11 +743,47 @@ def search_monotone(ctx, o, S):
             todo.extend(n_.succ)
         return False
 
-    defs = fl.defs_of(dvar)
+    defs = [x for x in fl.defs_of(dvar) if x.stmt is None or not _dead(x.stmt)]
     inits = [x for x in defs if x.kind == 'assign' and not (x.node is not None and any(
         isinstance(r, ast.Return) for r in [x.node.ast]))]
     ok = True
     n_init = n_step = 0
+
+    def _in_loop(node):
+        return node is not None and any(any(y is node.ast for st_ in l_.body for y in ast.walk(st_))
+                                        for l_ in walk_no_nested(f.node) if isinstance(l_, (ast.For, ast.While)))
+
+    def _delta_x(e, at):
+        k_ = facts.day_delta(e)
+        if k_ is None and at is not None:
+            k_ = facts.day_delta(ex.expand(e, at))       # timedelta(days=direction) with the direction bound to a constant
+        return k_
+    # steps made once before the loop (`if not forward: d = d - DAY`, live after the direction was bound) shift the start
+    pre_shift = 0
+    live_pre = []
+    for x in list(defs):
+        k_ = None
+        if x.kind == 'aug' and not _in_loop(x.node):
+            k_ = _delta_x(x.stmt.value, x.node)
+            if k_ is not None and isinstance(x.stmt.op, ast.Sub):
+                k_ = -k_
+        elif x.kind == 'assign' and not _in_loop(x.node) and isinstance(x.value, ast.BinOp) and isinstance(x.value.op, (ast.Add, ast.Sub)) and \
+                isinstance(x.value.left, ast.Name) and x.value.left.id == dvar:
+            k_ = _delta_x(x.value.right, x.node)
+            if k_ is not None and isinstance(x.value.op, ast.Sub):
+                k_ = -k_
+        if k_ is not None:
+            conds_ = [(t_, p_) for t_, p_ in facts.node_conditions(prog, f, x.stmt, ctx.typer, expand=True) if _const_truth(t_) is None]
+            if conds_:
+                # a shift that happens on some inputs only: the first day examined differs by a day between the two paths, so on one of
+                # them it is not the required one
+                o.refute(f, x.stmt, x.stmt, f"the search day is shifted by `{src(x.stmt)}` before the loop only when "
+                                            f"`{' and '.join(('' if p_ else 'not ') + src(t_) for t_, p_ in conds_)[:80]}`: the first day examined is "
+                                            f"then not the same day for every input (expected: nearest availability"
+                                            f"{'' if d == 1 else ' - 1 day'})")
+                ok = False
+            pre_shift += k_
+            defs.remove(x)
     for x in defs:
         if x.kind == 'assign':
             v = x.value
@@ -691,6 +807,22 @@ def search_monotone(ctx, o, S):
                         o.refute(f, x.stmt, x.stmt, "the day step is conditional")
                         ok = False
                 continue
+            # d = resource.get_nearest_availability_date(d +/- 1 day, dir) inside the loop: a step to the next day the calendar offers
+            # capacity on (the days jumped over have none): never back, never over a day that could be free
+            mj = match(f"{res_p}.get_nearest_availability_date({dvar} + $t, $k)", v) or match(f"{res_p}.get_nearest_availability_date({dvar} - $t, $k)", v)
+            if mj and _in_loop(x.node) and d == 1:        # (backward the resource helper answers the day AFTER the free one: not a step)
+                kd = facts.day_delta(mj['t'])
+                if kd is not None and isinstance(v.args[0], ast.BinOp) and isinstance(v.args[0].op, ast.Sub):
+                    kd = -kd
+                if kd == d and facts.const_num(mj['k']) == d:
+                    n_step += 1
+                    if _step_can_be_skipped(x.node):
+                        o.refute(f, x.stmt, x.stmt, "the day step is conditional")
+                        ok = False
+                else:
+                    o.refute(f, x.stmt, x.stmt, f"search steps by `{src(x.stmt)[:70]}`; expected a move of {d:+d} day per iteration")
+                    ok = False
+                continue
             v = ex.expand(v, x.node, stop={dvar})
             base = v
             off = 0
@@ -708,14 +840,14 @@ def search_monotone(ctx, o, S):
                 # the one and only start of the search, written in a form the rule does not know
                 o.undecided(f, x.stmt, x.stmt, f"search day `{dvar}` is set to `{src(v)[:70]}`, a form the rule does not recognise")
                 ok = False
-            elif m is None or k != d or off != want_off:
-                o.refute(f, x.stmt, x.stmt, f"search starts at `{src(v)}`; expected resource.get_nearest_availability_date(start, {d})"
+            elif m is None or k != d or off + pre_shift != want_off:
+                o.refute(f, x.stmt, x.stmt, f"search starts at `{src(v)}`{f' shifted by {pre_shift:+g} day(s)' if pre_shift else ''}; expected resource.get_nearest_availability_date(start, {d})"
                                             + ('' if d == 1 else ' - 1 day'))
                 ok = False
             else:
                 n_init += 1
         elif x.kind == 'aug':
-            k = facts.day_delta(x.stmt.value)
+            k = _delta_x(x.stmt.value, x.node)
             if isinstance(x.stmt.op, ast.Sub) and k is not None:
                 k = -k
             if k != d:
